@@ -95,6 +95,20 @@ pub fn collect_unrecorded_ids<I: Interner, DB: RustIrDatabase<I>>(
         .collect()
 }
 
+/// Collects the identifiers of the items mentioned in `value` (for instance the
+/// parameters of a goal), so that they can be recorded as used.
+pub fn collect_ids<I: Interner, DB: RustIrDatabase<I>, T: TypeVisitable<I>>(
+    db: &DB,
+    value: &T,
+) -> IndexSet<RecordedItemId<I>> {
+    let mut collector = IdCollector {
+        db,
+        found_identifiers: IndexSet::new(),
+    };
+    let _ = value.visit_with(&mut collector, DebruijnIndex::INNERMOST);
+    collector.found_identifiers
+}
+
 struct IdCollector<'i, I: Interner, DB: RustIrDatabase<I>> {
     db: &'i DB,
     found_identifiers: IndexSet<RecordedItemId<I>>,
